@@ -573,9 +573,13 @@ func TestVerifTWReconnect(t *testing.T) {
 			if err != nil {
 				t.Fatal(err)
 			}
+			// a writer that stops taking frames must not hang the harness: the files will show what is missing
+			conn.SetWriteDeadline(time.Now().Add(30 * time.Second))
 			conn.Write([]byte(hdr))
 			for k := from; k <= to; k++ {
-				conn.Write(twFrame(k, sc.FrameSize))
+				if _, err := conn.Write(twFrame(k, sc.FrameSize)); err != nil {
+					break
+				}
 			}
 			conn.Close()
 		}
